@@ -838,6 +838,7 @@ impl TypeChecker {
                 UniOp::Neg => {
                     let (a_ret, a) = self.expression(a, ctx)?;
                     self.add_constraint(a, *span, Constraint::Neg);
+                    self.check_constraints(*span, ctx, a)?;
                     with_ret(a_ret, a)
                 }
                 UniOp::Not => {
@@ -1214,14 +1215,7 @@ impl TypeChecker {
                 Constraint::Cmp(b) => self.cmp(span, ctx, a, *b),
                 Constraint::CmpEqu(b) => self.equ(span, ctx, a, *b).and(self.cmp(span, ctx, a, *b)),
 
-                Constraint::Neg => match self.find_type(a) {
-                    Type::Unknown | Type::Int | Type::Float => Ok(()),
-                    _ => err_type_error!(
-                        self,
-                        span,
-                        TypeError::UniOp { val: self.bake_type(a), op: "-".to_string() }
-                    ),
-                },
+                Constraint::Neg => self.neg(span, ctx, a),
 
                 Constraint::ConstantIndex(index, ret) => {
                     self.constant_index(span, ctx, a, *index, *ret)
@@ -1817,6 +1811,27 @@ impl TypeChecker {
                     rhs: self.bake_type(b),
                     op: "+".to_string(),
                 }
+            ),
+        }
+    }
+
+    fn neg(&mut self, span: Span, ctx: TypeCtx, a: TyID) -> TypeResult<()> {
+        match self.find_type(a) {
+            Type::Unknown | Type::Int | Type::Float => Ok(()),
+
+            // Tuples are negated element-wise, like the other arithmetic operators.
+            Type::Tuple(tys) => {
+                for ty in tys.iter() {
+                    self.add_constraint(*ty, span, Constraint::Neg);
+                    self.neg(span, ctx, *ty)?;
+                }
+                Ok(())
+            }
+
+            _ => err_type_error!(
+                self,
+                span,
+                TypeError::UniOp { val: self.bake_type(a), op: "-".to_string() }
             ),
         }
     }
